@@ -147,6 +147,11 @@ class GenericGen:
         if r.random() < 0.35 and not const:     # (a defaulted type parameter cannot be followed by a const parameter)
             last = params[-1]
             d = r.choice([prim("String"), user(self.dep), Ty("vec", args=[prim("u8")]), Ty("opt", args=[user(self.dep)])])
+            if nparams >= 2 and r.random() < 0.45:
+                # a default may mention an earlier parameter: `struct Paged<T, P = Vec<T>>`
+                e = Ty("param", params[0])
+                d = r.choice([Ty("vec", args=[e]), Ty("opt", args=[e]), e, Ty("map", "HashMap", args=[prim("String"), e])])
+                it.tags.append("default-mentions-parameter")
             it.param_defaults[last] = d.rs()
             it.param_default_tys = {last: d}
         concrete = None
